@@ -364,7 +364,30 @@ def check_dist (c):
     if not loads:
         return dict (status = 'discard', reason = 'no distributed load drawn')
     spec ['loads'] = loads
-    m = gen.build (spec)
+    # the model is built through the command line or through the classes of the library, there also with the
+    # load objects created before the geometry is scaled (insulation radius is not scaled, the wire radius is)
+    route = str (rng.choice (['cli', 'cli', 'api', 'api-early', 'api-early-scale']))
+    if route == 'cli':
+        m = gen.build (spec)
+    elif route == 'api-early-scale':
+        s  = float (rng.uniform (1.5, 20))
+        s2 = copy.deepcopy (spec)
+        for g in s2 ['geo']:
+            if g ['k'] == 'w':
+                g ['p1'] = [x / s for x in g ['p1']]
+                g ['p2'] = [x / s for x in g ['p2']]
+            else:
+                for k in ('radius', 'length', 'turn', 'rx1', 'ry1', 'rx2', 'ry2'):
+                    if g.get (k) is not None:
+                        g [k] = g [k] / s
+            g ['r'] = g ['r'] / s
+        for x in s2 ['src']:
+            if 'at' in x:
+                x ['at'] = list (x ['at'])
+        s2 ['sc'] = [[s, None]]
+        m = gen.build (s2, route = 'api', early_loads = True)
+    else:
+        m = gen.build (spec, route = 'api', early_loads = route == 'api-early')
     f0 = m.f
     # the same object at a second frequency: the distributed loads follow the frequency
     for f_now, sfx in ((f0, ''), (f0 * float (rng.choice ([0.37, 0.6, 1.9, 3.1])), '.f2')):
@@ -412,7 +435,7 @@ def check_dist (c):
               for z in got [i]:
                   j.judge ('dist.' + nm + sfx, abs (z - want) / abs (want) if abs (want) else abs (z), (skin_tol.get (i, rel) if nm == 'skin' else rel), '%s load on pulse %d at %.6g MHz%s: %r, closed form x conductor length %r' % (nm, i + 1, m.f, ' (same object, first used at %.6g MHz)' % f0 if sfx else '', z, want), key = 'dist-' + nm + ('-after-frequency-change' if sfx else ''))
     m.f = f0
-    sig = 'dist|%s|%s|%s|%s' % ('+'.join (sorted (set (l ['k'] + ('T' if l.get ('tag') else 'A') for l in loads))), spec.get ('fam'), 'gnd' if m.media is not None else 'free'
+    sig = 'dist|%s|%s|%s|%s|%s' % (route, '+'.join (sorted (set (l ['k'] + ('T' if l.get ('tag') else 'A') for l in loads))), spec.get ('fam'), 'gnd' if m.media is not None else 'free'
                                , 'G' if any (p.ground.any () for p in m.pulses) else '')
     return dict (status = 'violation' if j.viol else 'held', sig = sig, nontrivial = True, margin = j.worst, monitors = j.mon, violations = j.viol)
 # end def check_dist
